@@ -10,7 +10,7 @@ fn show(a: AmountT) -> String {
 macro_rules! corpus {
     ($Q:ty, $U:ty, $name:expr) => {{
         let us: Vec<$U> = <$U as Unit>::iter().collect();
-        let amounts: Vec<AmountT> = vec![Amnt!(0.0), Amnt!(1.0), Amnt!(2.5), Amnt!(-7.25), Amnt!(1234.5678), Amnt!(0.001)];
+        let amounts: Vec<AmountT> = vec![Amnt!(0.0), Amnt!(1.0), Amnt!(2.5), Amnt!(-7.25), Amnt!(1234.5678), Amnt!(0.001), Amnt!(0.0) * Amnt!(-1.0)];
         for (i, u) in us.iter().enumerate() {
             println!("{} unit {} {:?} {} {} {}", $name, i, u, u.name(), u.symbol(), show(u.scale()));
             for (j, v) in us.iter().enumerate() {
@@ -23,7 +23,7 @@ macro_rules! corpus {
                     let s = x + y;
                     let d = x - y;
                     println!("{} arith {} {} {} {} {} {}", $name, i, j, show(*a), show(s.amount()), show(d.amount()), show(x / y));
-                    println!("{} fmt {} {} {} [{}] [{:>12.3}]", $name, i, j, show(*a), x, x);
+                    println!("{} fmt {} {} {} [{}] [{:>12.3}] [{:+}] [{:+010.2}] [{:*^14}]", $name, i, j, show(*a), x, x, x, x, x);
                 }
             }
         }
